@@ -148,6 +148,10 @@ fn check_tag_pairs(acc: &mut Acc) {
             if (a == b) != same {
                 v(acc, "tag-eq", format!("{a:?} == {b:?} is {} but names are {:?} / {:?}", a == b, names[i], names[j]), case.clone());
             }
+            // (round 7) comparison with a string is comparison with the protocol name, as for two tags
+            if (*a == names[j].as_str()) != same {
+                v(acc, "tag-eq-str", format!("{a:?} == {:?} (a &str) is {} but {a:?} == {b:?} must be {same}", names[j], *a == names[j].as_str()), case.clone());
+            }
             let want: Ordering = names[i].cmp(&names[j]);
             if a.cmp(b) != want || a.partial_cmp(b) != Some(want) {
                 v(acc, "tag-ord", format!("{a:?}.cmp({b:?}) = {:?}, names compare {want:?}", a.cmp(b)), case.clone());
@@ -187,6 +191,18 @@ fn check_tag_parse(acc: &mut Acc) {
         cands.push(format!("{n} "));
     }
     cands.extend(["any", "x", "my-tag", "my_tag", "Last-Modified"].map(String::from));
+    // (round 7) long candidates: every known name with tails of 1..=20 letters (in the name's own and in
+    // lower case), plain names of 20..=70 and 300 letters (a lookup buffer sized for the longest known name)
+    for (_, n) in named_tags() {
+        for k in [1usize, 2, 3, 5, 8, 13, 20] {
+            cands.push(format!("{n}{}", "x".repeat(k)));
+            cands.push(format!("{}{}", n.to_lowercase(), "_".repeat(k)));
+        }
+    }
+    for n in (20usize..=70).chain([127, 128, 129, 300]) {
+        cands.push("q".repeat(n));
+        cands.push(format!("MUSICBRAINZ_{}", "Z".repeat(n)));
+    }
     // names that are special somewhere else in the protocol or the library, in every letter case
     for special in ["any", "file", "base", "modified-since", "added-since", "AudioFormat", "prio", "window", "sort", "group"] {
         cands.extend(case_variants(special));
@@ -366,7 +382,7 @@ pub fn run(tier: Tier) -> i32 {
     let mut cov = Coverage::default();
     cov.evaluations = acc.evaluations;
     cov.distinct_nontrivial = acc.nontrivial;
-    cov.rule = "complete enumeration: all ordered pairs over {31 named tags} U {Other(name) for each name as is / lower / upper / first letter flipped} U {any, x}; all ordered pairs of the analogous subsystem domain; every candidate tag string (name variants, name+x, name minus last letter, every name with one letter replaced by each of 7 non-ASCII characters incl. those Unicode case mapping folds onto ASCII, all strings of length <= 2 over 9 byte classes, names that are special elsewhere in the protocol in every letter case, names with leading / trailing characters the protocol cannot carry); every ordered pair of case-variants parsed back to back (parsing has no memory); every subsystem name (14 + unknown + wrong-case spellings) sent as an idle notification through the real client; non-trivial = pairs of distinct values with equal names, invalid or known-name parse inputs, event names".to_string();
+    cov.rule = "complete enumeration: all ordered pairs over {31 named tags} U {Other(name) for each name as is / lower / upper / first letter flipped} U {any, x}; all ordered pairs of the analogous subsystem domain; Tag == &str against every name of the domain; every candidate tag string (name variants, name+x, known names with tails of up to 20 letters, plain names of 20..70 / 300 letters, name minus last letter, every name with one letter replaced by each of 7 non-ASCII characters incl. those Unicode case mapping folds onto ASCII, all strings of length <= 2 over 9 byte classes, names that are special elsewhere in the protocol in every letter case, names with leading / trailing characters the protocol cannot carry); every ordered pair of case-variants parsed back to back (parsing has no memory); every subsystem name (14 + unknown + wrong-case spellings) sent as an idle notification through the real client; non-trivial = pairs of distinct values with equal names, invalid or known-name parse inputs, event names".to_string();
     cov.states = acc.evaluations;
     cov.transitions = acc.transitions;
     cov.traces = acc.evaluations;
